@@ -1,5 +1,6 @@
 import PoxModel.Model.CodecOF
 import PoxModel.Model.CodecNXM
+import PoxModel.Spec.NXLayouts
 /-! # `nx_flow_mod` and `nxt_packet_in` by hand (nicira.py:335-441, 2385-2480)
 
 Both are vendor messages with a second length field (`match_len`) in front of an `nx_match`, which is padded to a
@@ -35,10 +36,8 @@ structure NxFlowMod (E : Type) where
   match_ : List Entry
   actions : List E
 
-def nxfmL : Layout :=
-  ⟨Spec.OF10.ofp_header ++ [.uint "vendor" 4, .uint "subtype" 4, .uint "cookie" 8, .uint "command" 2,
-     .uint "idle_timeout" 2, .uint "hard_timeout" 2, .uint "priority" 2, .uint "buffer_id" 4, .uint "out_port" 2,
-     .uint "flags" 2, .uint "match_len" 2, .pad 6], .rest "match+pad+actions"⟩
+/-- the fixed part is `struct nx_flow_mod` of `Spec/NXLayouts.lean` -/
+def nxfmL : Layout := Spec.NX.nx_flow_mod
 
 /-- `nx_match.pack()` of a list of entries, each with the `_nxm_length` of its value -/
 def packMatch (es : List Entry) : Option Bytes := encMatch (es.map fun e => (e.value.length, e))
@@ -86,9 +85,8 @@ structure NxPacketIn where
   match_ : List Entry
   data : Bytes
 
-def nxpiL : Layout :=
-  ⟨Spec.OF10.ofp_header ++ [.uint "vendor" 4, .uint "subtype" 4, .uint "buffer_id" 4, .uint "total_len" 2,
-     .uint "reason" 1, .uint "table_id" 1, .uint "cookie" 8, .uint "match_len" 2, .pad 6], .rest "match+pad+data"⟩
+/-- the fixed part is `struct nx_packet_in` of `Spec/NXLayouts.lean` -/
+def nxpiL : Layout := Spec.NX.nxt_packet_in
 
 def nxpiVals (p : NxPacketIn) (mlen : Nat) : List Val :=
   [.num p.version, .num p.header_type, .num p.xid, .num p.vendor, .num p.subtype, .num p.buffer_id, .num p.total_len,
